@@ -600,8 +600,13 @@ class Explorer:
         site = f"{finfo.qualname}@{getattr(node, 'lineno', '?')}"
         bound = self.bind_params(run, finfo.node, args, kwargs, None, finfo)
         ptypes = self.param_types(finfo, c2)
+        for extra in (finfo.node.args.vararg, finfo.node.args.kwarg):
+            if extra is not None and extra.arg in c2.types:
+                ptypes[extra.arg] = c2.types[extra.arg]
         sf = Frame(finfo)
         for n, v in bound.items():
+            if isinstance(v, VTuple) and n in ptypes and isinstance(ptypes[n], TSeq):
+                v = ops.seq_from_items(run, v.items, ptypes[n]) if v.items else Val(ptypes[n], z3.Empty(ptypes[n].sort()))
             sf.vars[n] = run.coerce(v, ptypes[n]) if not isinstance(v, Conc) else v
         saved_old = run.old
         run.old = {"heap": dict(run.heap), "globals": dict(run.globals), "vars": dict(sf.vars), "ghost": dict(run.ghost), "next_ref": run.next_ref}
@@ -957,6 +962,13 @@ class Explorer:
         ptypes = self.param_types(finfo, c)
         for name, ty in ptypes.items():
             v = Val(ty, ty.const(f"in!{name}"))
+            # a list / dict / set argument is the CALLER's object (containers are modelled by value, so an in-place change
+            # would otherwise stay invisible): mutating it is the obligation frame#foreign_object_mutated_through_<name>,
+            # unless the contract names the parameter in `mutates`
+            inner = ty.inner if isinstance(ty, TOpt) else ty
+            if isinstance(inner, (TDict, TSet, TSeq)) and name not in getattr(c, "mutates", ()) and os.environ.get("PYVC_PARAMS_FOREIGN") == "1":
+                v.foreign = True
+                run.foreign_vars.setdefault(id(fr), set()).add(name)
             fr.vars[name] = v
             run.wf(v)
             if name == "self" and isinstance(ty, TRef):
